@@ -698,9 +698,14 @@ def oracle_verdict(m, spec, res, T):
     lookalike = any(c['noise_header_before_report'] for c in res.children)
     child_import = any(p_ != 0 for p_ in T.import_failures)
     expected = T.anything_bad() or bool(child_bad) or spawn_failed or child_import
+    # (a child whose layer lost ALL its tests to the import failure cannot find its layer and
+    # says so: that case is reported correctly; the known finding is the child that still runs
+    # the rest of its layer)
+    emptied = any(p_ != 0 and not any(o['pid'] == p_ for o in T.occs) for p_ in T.import_failures)
     reason = 'test/layer/import' if T.anything_bad() else (
         'child-report-missing' if child_bad else ('spawn-failed' if spawn_failed else (
-            'child-only-import-failure' if child_import else 'none')))
+            ('child-import-failure-emptied-layer' if emptied else 'child-only-import-failure')
+            if child_import else 'none')))
     if res.raised:
         viols.append(C.viol('C02/no-verdict/%s' % frames_sig(res.raised),
                             'run_internal raised instead of returning a verdict: %s: %s\n%s'
